@@ -274,16 +274,25 @@ fn c08(cases_path: &str, quick: bool, out: &mut dyn Write) {
                 }
                 let body = if same { render_tokens_with(&top, &inner, true) } else { body.clone() };
                 // every reply in both namespace styles: default namespace, and the base namespace bound to a prefix
-                for pfx in [false, true] {
+                // 0: default namespace, 1: the base namespace bound to a prefix, 2: the reply is taken off the transport
+                // and parked for its owner by another request's future
+                for variant in 0..3 {
+                    let pfx = variant == 1;
+                    let parked = variant == 2;
                     if pfx && (same || (quick && k % 3 != 0 && nerr == 0)) {
                         continue;
                     }
+                    if parked && (same || op == "close-session" || (quick && k % 4 != 1)) {
+                        continue;
+                    }
+                    PARKED.store(parked, std::sync::atomic::Ordering::Relaxed);
                     let r = std::panic::catch_unwind(|| run_op_ns(op, &body, pfx));
+                    PARKED.store(false, std::sync::atomic::Ordering::Relaxed);
                     let (outcome, errs, detail) = r.unwrap_or_else(|_| ("panic".into(), vec![], String::new()));
                     writeln!(
                         out,
                         "{}",
-                        json!({"ev": "c08", "case": k, "type": ty, "op": op, "top": top, "inner": inner, "same": same, "prefixed": pfx,
+                        json!({"ev": "c08", "case": k, "type": ty, "op": op, "top": top, "inner": inner, "same": same, "prefixed": pfx, "parked": parked,
                                "outcome": outcome, "errs": errs, "detail": detail})
                     )
                     .unwrap();
@@ -1053,6 +1062,28 @@ fn c13(cases_path: &str, out: &mut dyn Write) {
 // ---------------------------------------------------------------------------------------------
 // C10: serialised requests are well-formed and carry the caller's values unchanged
 
+/// a value of a few hundred kilobytes whose multi-byte characters sit at every alignment: whatever size the
+/// library cuts, copies or escapes by, some boundary falls inside a character
+fn big_nonascii() -> String {
+    let mut s = String::from("a");
+    while s.len() < 230_000 {
+        s.push_str("\u{e9}\u{20ac}\u{1f600}z\u{6f22}");
+    }
+    s
+}
+
+/// long values are compared by length and checksum (the trace stays small)
+fn brief(v: &str) -> String {
+    if v.len() <= 4096 {
+        return v.to_string();
+    }
+    let mut h: u64 = 0xcbf29ce484222325;
+    for b in v.bytes() {
+        h = (h ^ b as u64).wrapping_mul(0x100000001b3);
+    }
+    format!("{} bytes, fnv1a {h:016x}, starts {:?}", v.len(), v.chars().take(12).collect::<String>())
+}
+
 fn class_text(c: &str) -> &'static str {
     match c {
         "plain" => "ab1",
@@ -1081,7 +1112,7 @@ fn c10(cases_path: &str, out: &mut dyn Write) {
     for (k, c) in v["cases"].as_array().unwrap().iter().enumerate() {
         let param = c["param"].as_str().unwrap().to_string();
         let classes = strs(&c["classes"]);
-        let value: String = classes.iter().map(|c| class_text(c)).collect();
+        let value: String = classes.iter().map(|c| if c == "big-nonascii" { big_nonascii() } else { class_text(c).to_string() }).collect();
         let r = std::panic::catch_unwind(|| {
             let mut ws = WSess::with_caps(ALL_CAPS);
             let before = ws.ctl.sent_len();
@@ -1146,7 +1177,7 @@ fn c10(cases_path: &str, out: &mut dyn Write) {
                         } else {
                             root.find(locate).map(|e| if fragment { format!("{}|{}", e.attr("k").unwrap_or("?"), e.text()) } else { e.text() })
                         };
-                        ev["recovered"] = json!(rec.unwrap_or_else(|| "<not found>".into()));
+                        ev["recovered"] = json!(brief(&rec.unwrap_or_else(|| "<not found>".into())));
                     }
                 }
                 ev["wire"] = json!(wire.chars().take(300).collect::<String>());
@@ -1158,7 +1189,7 @@ fn c10(cases_path: &str, out: &mut dyn Write) {
                 "subtree-filter" | "edit-fragment" | "copy-fragment" | "edit-opaque" | "load-opaque" => format!("{value}|{value}"),
                 _ => value.clone(),
             };
-            ev["expected"] = json!(expect);
+            ev["expected"] = json!(brief(&expect));
             ev
         });
         let mut ev = r.unwrap_or_else(|_| json!({"sent": false, "local": "panic"}));
